@@ -73,6 +73,40 @@ CHECKS = {
         "outside": "reader goroutines and their lifetime, real TCP, io.Copy in PortFwdRead, pipelined greeting+request, concurrent table use (two-thread harness not built in this revision)",
         "min_completed": 3,
     },
+    "C13": {
+        "groups": [
+            {"pkg": "Havoc/pkg/common/builder", "entries": ["H_c13_options"], "shards": 9, "no_native_witness": True, "no_native_replay": True},
+            {"pkg": "Havoc/pkg/common/builder", "entries": ["H_c13_hours"], "shards": 2, "no_native_witness": True, "no_native_replay": True},
+        ],
+        "bounds": "options: Sleep 1..2 digits, Jitter 1..3 digits, every enumerated choice of allocation/execution/sleep technique/jump gadget/proxy loading/AMSI plus one 'other' value, stack duplication and indirect syscalls on/off, SMB listener with arbitrary 64-bit kill date; working hours: H[H]:MM-H[H]:MM with arbitrary digits.",
+        "outside": "HTTP listener block (hosts, headers, URIs, proxy), compiler command line and shell quoting of the service name, Patch() of the binary, interface-name resolution, non-ASCII strings (UTF-16 encoder stubbed by its ASCII behaviour), regexp (decided by a hand-written matcher for the one pattern)",
+        "min_completed": 3,
+    },
+    "C10": {
+        "groups": [
+            {"pkg": "Havoc/pkg/db", "with": ["Havoc/pkg/agent", "Havoc/pkg/logr", "Havoc/pkg/common/parser", "Havoc/pkg/socks"], "entries": ["H_c10_agent_roundtrip"]},
+        ],
+        "bounds": "one session: id with arbitrary top byte (incl. >= 0x80000000) and fixed low 24 bits, 2-byte key and IV, metadata strings of 1..2 lower-case letters, 8..32 bit symbolic integers; insert, restore, update, death, restore.",
+        "outside": "crash points and journalling, SQLite typing/column affinity (numeric-looking text), links and listeners tables, structs.Map/json listener persistence: all behind cgo/reflection (DESIGN.md C10); native replay does exercise real SQLite for the witnesses",
+        "min_completed": 1,
+    },
+    "C17": {
+        "groups": [
+            {"pkg": "Havoc/pkg/profile/yaotl/json", "entries": ["H_c17_json_scan"], "shards": 4, "flags": ["-init", "Havoc/pkg/profile/yaotl"]},
+            {"pkg": "Havoc/pkg/profile/yaotl/hclsyntax", "entries": ["H_c17_strlit_any"], "shards": 5},
+        ],
+        "bounds": "JSON scanner: every byte string of length 0..3; string-literal sub-lexer (scanStringLit, quoted and unquoted): every byte string of length 0..4; grapheme segmentation by contract.",
+        "outside": "the native-syntax lexer scan_tokens.go (5k lines of generated tables) and the parsers above it, templates, traversals, JSON parser above the scanner, evaluation of error-free inputs: not encodable within reach (DESIGN.md C17)",
+        "min_completed": 3,
+    },
+    "C14": {
+        "groups": [
+            {"pkg": "Havoc/pkg/profile/yaotl/hclsyntax", "entries": ["H_c14_strlit"], "shards": 3},
+        ],
+        "bounds": "string literal spelling kernel: values of 0..2 arbitrary bytes, each written raw (ASCII, where legal), as \\n \\r \\t \\\" \\\\, or as \\xHH in upper or lower case, through scanStringLit + ParseStringLiteralToken.",
+        "outside": "everything decoded through gohcl/cty/reflection: schema, required/unknown attributes, heredocs, numbers as strings, block labels, repeated blocks (DESIGN.md C14)",
+        "min_completed": 3,
+    },
     "C11": {
         "groups": [
             {"pkg": "Havoc/cmd/server", "with": SRV_WITH, "entries": ["H_c11_append", "H_c11_replay", "H_c11_fanout", "H_c11_fault"], "no_native_witness": True, "no_native_replay": True},
@@ -161,6 +195,14 @@ LEVELS = {
             "note": "gin.Context is built directly (no router); parseAgentRequest stubbed as recorder inside gosx."},
     "C15": {"text": "Bounded symbolic execution of the real SOCKS negotiation/request parsing (with the real bufio.Reader), the proxy connection handler and the COMMAND_SOCKET callbacks against a reference RFC 1928 parser; the client's byte stream and its TCP segmentation are symbolic.",
             "note": "net.Conn is a scripted in-memory connection (same code natively); goroutines are recorded, not run."},
+    "C13": {"text": "Bounded symbolic execution of the real Builder.PatchConfig and ParseWorkingHours against a reference reader transcribed from Demon.c DemonConfig(); every enumerated option and symbolic digits/integers; a crossed assignment of one option shows as a field mismatch.",
+            "note": "SMB transport only in this revision; UTF-16 encoder and regexp are stubs stated in the harness; no native replay (the stubs stand for x/text and regexp)."},
+    "C10": {"text": "Partial: bounded symbolic execution of the Go side of agent persistence (db.AgentAdd/AgentUpdate/AgentAll) with database/sql replaced by a recorder keyed by the column names parsed from the SQL text; shows that every field is written to and read from its own column for every 32-bit id.",
+            "note": "Crash consistency and SQLite typing are not covered (not encodable); base64 and database/sql are models inside gosx, real SQLite in the native replay."},
+    "C17": {"text": "Partial: bounded symbolic execution of the JSON scanner and of the generated string-literal sub-lexer over all byte strings up to the bound: totality (no panic, termination) and losslessness of tokens are decided for every input in the bound.",
+            "note": "The native lexer/parser and the JSON parser are outside; grapheme segmentation is a contract stub."},
+    "C14": {"text": "Partial: the value-dependent kernel of profile decoding - how a string literal's spelling maps to its value - is decided by symbolic execution of scanStringLit + ParseStringLiteralToken for every value/spelling in the bound.",
+            "note": "Schema-level decoding (gohcl/cty/reflect) is not encodable and not claimed."},
     "C11": {"text": "Bounded symbolic execution of the real event log / replay / fan-out / SendEvent code with the websocket write as a fault-injecting recorder; the fault sequence is a symbolic variable, and a mutex left held after any send is reported by the engine's lock model.",
             "note": "websocket, JSON encoder and DB are stubs; single-threaded (interleavings of concurrent broadcasters are outside)."},
     "C06": {"text": "Bounded symbolic execution of the real handleRequest/ClientAuthenticate/EventBroadcast decision logic over an arbitrary first Package (the image of json.Unmarshal), with SHA3 as an injective digest.",
